@@ -96,9 +96,9 @@ def run(rep, repo, tier):
             wh.append(next(iter(r)) if r and len(r) == 1 else '?')
         rh = {}
         for attr in ('num_students', 'num_projects', 'num_lecturers'):
-            st = [(e, c) for e, c in iter_effects(R.loop.body) if e.kind == 'store' and e.target == A(R.model, attr)]
+            st = R.header_stores(attr)
             if len(st) == 1:
-                rh[attr] = R.header_field(st[0][0].value)
+                rh[attr] = st[0][1]
         want_r = {'num_students': 'n1', 'num_projects': 'n2', 'num_lecturers': 'n2' if na == 2 else 'n3'}
         for attr, opt in want_r.items():
             k = rh.get(attr)
@@ -121,12 +121,12 @@ def run(rep, repo, tier):
         if na == 3 and len(pls) == 1:
             rattr['project_lecturers'] = R.field(pls[0][0].value)
         reader_fn = find_reader(repo)
-        calls = [(e, c) for e, c in iter_effects(R.loop.body) if e.kind == 'call' and e.target is reader_fn]
         slices = {}
-        for e, ctx in calls:
-            outer = [c.target.name for c, _ in ctx if c.kind == 'call']
-            k = R.slice_from(e.args[0])
-            slices['first' if '_create_pairs_row' in outer else 'second'] = k
+        st_calls, sec_calls = R.tokeniser_calls()
+        for e, ctx in st_calls:
+            slices['first'] = R.slice_from(e.args[0])
+        for e, ctx in sec_calls:
+            slices['second'] = R.slice_from(e.args[0])
         # first side
         if wt:
             cnt, row, line = wt[0]
